@@ -29,6 +29,98 @@ type qbSite struct {
 	Bank             []string
 }
 
+// hoistThroughHelper makes the fact robust against an "extract helper" refactor: a site found
+// unconditionally inside an UNEXPORTED function that is called from exactly one place in the same
+// package is attributed to that caller — its name, the innermost `if` around the call, and the
+// caller's bank calls followed by the helper's. (An exported function, a second caller or a
+// condition inside the helper leave the site where it is, which changes the fact: fails closed.)
+func hoistThroughHelper(c *Ctx, files map[string]*ast.File, helper *ast.FuncDecl, s qbSite) qbSite {
+	name := helper.Name.Name
+	if s.Cond != "" || name == "" || !(name[0] >= 'a' && name[0] <= 'z') {
+		return s
+	}
+	type callSite struct {
+		file string
+		fd   *ast.FuncDecl
+		cond string
+	}
+	var callers []callSite
+	for _, fname := range sortedKeys(files) {
+		for _, d := range files[fname].Decls {
+			fd, ok := d.(*ast.FuncDecl)
+			if !ok || fd.Body == nil || fd == helper {
+				continue
+			}
+			var ifs []*ast.IfStmt
+			var walk func(n ast.Node)
+			walk = func(n ast.Node) {
+				ast.Inspect(n, func(m ast.Node) bool {
+					switch t := m.(type) {
+					case *ast.IfStmt:
+						if t.Init != nil {
+							walk(t.Init)
+						}
+						walk(t.Cond)
+						ifs = append(ifs, t)
+						walk(t.Body)
+						ifs = ifs[:len(ifs)-1]
+						if t.Else != nil {
+							walk(t.Else)
+						}
+						return false
+					case *ast.CallExpr:
+						called := ""
+						switch fn := t.Fun.(type) {
+						case *ast.Ident:
+							called = fn.Name
+						case *ast.SelectorExpr:
+							called = fn.Sel.Name
+						}
+						if called == name {
+							// the innermost enclosing `if` whose BODY contains the call (an `if err := helper(..); err != nil`
+							// around the call itself is the call's own error check, not a guard)
+							cond := ""
+							for i := len(ifs) - 1; i >= 0; i-- {
+								if ifs[i].Body.Pos() <= t.Pos() && t.End() <= ifs[i].Body.End() {
+									cond = c.src(ifs[i].Cond)
+									break
+								}
+							}
+							callers = append(callers, callSite{filepath.ToSlash(fname), fd, cond})
+						}
+					}
+					return true
+				})
+			}
+			walk(fd.Body)
+		}
+	}
+	if len(callers) != 1 {
+		return s
+	}
+	cs := callers[0]
+	var bank []string
+	seen := map[string]bool{}
+	ast.Inspect(cs.fd.Body, func(m ast.Node) bool {
+		if ce, ok := m.(*ast.CallExpr); ok {
+			if fn, ok := ce.Fun.(*ast.SelectorExpr); ok {
+				if inner, ok := fn.X.(*ast.SelectorExpr); ok && inner.Sel.Name == "bankKeeper" && !seen[fn.Sel.Name] {
+					seen[fn.Sel.Name] = true
+					bank = append(bank, fn.Sel.Name)
+				}
+			}
+		}
+		return true
+	})
+	for _, b := range s.Bank {
+		if !seen[b] {
+			seen[b] = true
+			bank = append(bank, b)
+		}
+	}
+	return qbSite{File: cs.file, Func: cs.fd.Name.Name, Cond: cs.cond, Bank: bank}
+}
+
 func emitQuarBypass(c *Ctx) (string, error) {
 	var dirs []string
 	err := filepath.WalkDir(c.Repo, func(p string, d fs.DirEntry, err error) error {
@@ -136,6 +228,7 @@ func emitQuarBypass(c *Ctx) (string, error) {
 				walk(fd.Body)
 				for _, s := range found {
 					s.Bank = bank
+					s = hoistThroughHelper(c, files, fd, s)
 					sites = append(sites, s)
 				}
 			}
